@@ -228,15 +228,38 @@ func ExploreAll(f Factory, plans []Plan, deadline time.Time) ([]*explore.Stats, 
 	}
 	close(ch)
 	wg.Wait()
+	// (on an infrastructure error the partial results are returned too: see InfraExit)
 	if firstErr != nil {
-		return nil, firstErr
+		return results, firstErr
 	}
 	for _, r := range results {
-		if r.Infra != "" {
-			return nil, fmt.Errorf("%s", r.Infra)
+		if r != nil && r.Infra != "" {
+			return results, fmt.Errorf("%s", r.Infra)
 		}
 	}
 	return results, nil
+}
+
+// InfraExit ends a check whose exploration met an infrastructure error (a schedule that did not replay
+// deterministically, a dead worker). Violations found - and confirmed 5/5 like any other - before the error
+// are real executions of the real code: they are reported and the check exits 1; the infrastructure error is
+// printed as a note. Without a confirmed violation the check is broken, not silent: exit 2.
+func InfraExit(prop string, f Factory, stats []*explore.Stats, err error, maxSteps int) {
+	var have []*explore.Stats
+	for _, st := range stats {
+		if st != nil {
+			have = append(have, st)
+		}
+	}
+	if len(have) > 0 {
+		out := Classify(prop, f, have, maxSteps)
+		if out.Violations > 0 {
+			fmt.Println("INFRA-NOTE: the exploration also ended early:", err, "(code that keeps state from one execution to the next does this; the violations above were each reproduced 5/5)")
+			os.Exit(1)
+		}
+	}
+	fmt.Println("INFRA:", err)
+	os.Exit(2)
 }
 
 // ---- known findings ----
